@@ -11,7 +11,7 @@ import (
 )
 
 func init() {
-	Explanations["C15"] = "Decides structural necessary conditions of 'accounts are a conserved ledger and service is paid before delivery' in the rhp.Server handlers: (R1) every Sectors.ReadSector/StoreSector call lies on the success edge of Contractor.DebitAccount for the request token's account and a cost computed by the request's (validated, see C08.R6) price table; (R2) where a handler checks existence (read, verify) the debit follows the positive existence test; (R3) the amount from which the fund/replenish revision is built is an Add-fold over exactly the deposit list handed to the atomic Credit*WithContract sink (same slice, or the element appended to it in the same loop iteration), and fund/replenish use only those atomic sinks; (R4) AttachPools/DetachPools are reached only through the natural exit of a loop that calls ValidSignature(host key) on every element of the very slice handed to the sink; (R5) a handler that derives deposits from a balance snapshot writes a non-zero amount only on the negative edge of a membership test in a map keyed by the account, and records the key on every iteration (top-up once per distinct key); (R6) in the reference Contractor (package testutil) and the server, a scan-then-append insertion into a keyed list compares the list's elements with the very value it appends (pool attachment is idempotent, so a pool is never drawable twice). NOT decided: non-negativity and pool drain order inside the Contractor implementation, exact prices."
+	Explanations["C15"] = "Decides structural necessary conditions of 'accounts are a conserved ledger and service is paid before delivery' in the rhp.Server handlers: (R1) every Sectors.ReadSector/StoreSector call lies on the success edge of Contractor.DebitAccount for the request token's account and a cost computed by the request's (validated, see C08.R6) price table; (R2) where a handler checks existence (read, verify) the debit follows the positive existence test; (R3) the amount from which the fund/replenish revision is built is an Add-fold over exactly the deposit list handed to the atomic Credit*WithContract sink (same slice, or the element appended to it in the same loop iteration), and fund/replenish use only those atomic sinks; (R4) AttachPools/DetachPools are reached only through the natural exit of a loop that calls ValidSignature(host key) on every element of the very slice handed to the sink; (R5) a handler that derives deposits from a balance snapshot writes a non-zero amount only on the negative edge of a membership test in a map keyed by the account, and records the key on every iteration (top-up once per distinct key); (R6) in the reference Contractor (package testutil) and the server, a scan-then-append insertion into a keyed list compares the list's elements with the very value it appends (pool attachment is idempotent, so a pool is never drawable twice). (R7) the keyed list the scan-then-append idiom inserts into (attached pools, drained in attachment order) is never overwritten in place nor handed to a sorting, reversing or shuffling routine. NOT decided: non-negativity and pool drain order inside the Contractor implementation, exact prices."
 
 	register(&Rule{ID: "C15.R1", Prop: "C15", Floor: 3, Doc: "service (sector read/store) only on the success edge of the debit for the token's account at the priced cost", Run: c15r1})
 	register(&Rule{ID: "C15.R2", Prop: "C15", Floor: 2, Doc: "existence check precedes the debit", Run: c15r2})
@@ -19,7 +19,7 @@ func init() {
 	register(&Rule{ID: "C15.R4", Prop: "C15", Floor: 2, Doc: "pool attach/detach only after every entry's signature was verified against the host key", Run: c15r4})
 	register(&Rule{ID: "C15.R6", Prop: "C15", Floor: 1, Doc: "idempotent attachment: the membership scan compares with the value that is inserted", Run: c15r6})
 	register(&Rule{ID: "C15.R7", Prop: "C15", Floor: 1, Doc: "the attached-pool list keeps attachment order: no element overwritten in place, never sorted/reversed/shuffled", Run: c15r7})
-	register(&Rule{ID: "C15.R5", Prop: "C15", Floor: 2, Doc: "replenish tops up each distinct key once", Run: c15r5})
+	register(&Rule{ID: "C15.R5", Prop: "C15", Floor: 1, Doc: "replenish tops up each distinct key once", Run: c15r5})
 }
 
 func c15r1(c *Ctx) {
@@ -139,6 +139,7 @@ func c15r3(c *Ctx) {
 			// all non-declaration definitions of sum are `sum = sum.Add(E.Amount)`
 			var addNodes []*cfgx.Node
 			var elems []types.Object
+			amountVar := map[types.Object]bool{}
 			good := true
 			for _, d := range wholeDefs(f, sum) {
 				if vs, ok := d.Stmt.(*ast.ValueSpec); ok && len(vs.Values) == 0 {
@@ -156,6 +157,13 @@ func c15r3(c *Ctx) {
 				}
 				amt, ok := ast.Unparen(call.Args[0]).(*ast.SelectorExpr)
 				if !ok || amt.Sel.Name != "Amount" || f.ObjOf(amt.X) == nil {
+					// the amount kept in a local of its own that also fills the deposit's Amount (`Deposit{…, Amount: a}`)
+					if a, isVar := f.ObjOf(call.Args[0]).(*types.Var); isVar && !a.IsField() {
+						elems = append(elems, a)
+						addNodes = append(addNodes, g.NodeContaining(d.LHS.Pos()))
+						amountVar[a] = true
+						continue
+					}
 					good = false
 					continue
 				}
@@ -197,7 +205,7 @@ func c15r3(c *Ctx) {
 							continue
 						}
 						appends++
-						if ac, ok := ast.Unparen(w.RHS).(*ast.CallExpr); ok && len(ac.Args) == 2 && sameLvalue(f, ac.Args[0], deposits) && f.ObjOf(ac.Args[1]) == elem {
+						if ac, ok := ast.Unparen(w.RHS).(*ast.CallExpr); ok && len(ac.Args) == 2 && sameLvalue(f, ac.Args[0], deposits) && (f.ObjOf(ac.Args[1]) == elem || (amountVar[elem] && literalAmountIs(f, ac.Args[1], elem))) {
 							if id, ok := ac.Fun.(*ast.Ident); ok && id.Name == "append" && containsNode(loop.Body, n.AST) {
 								appendNode = n
 							}
@@ -346,12 +354,25 @@ func c15r5(c *Ctx) {
 		ob := c.Ob(f, "topup-deduplicated", f.Body.Pos())
 		// stores of a non-constant value into <x>.Amount inside a loop
 		var amountStores []*cfgx.Node
+		// (or into a local that only exists to fill a deposit's Amount: `Deposit{Account: k, Amount: a}`)
+		amountVars := map[types.Object]bool{}
+		ir.Walk(f.Body, false, func(x ast.Node) {
+			if kv, ok := x.(*ast.KeyValueExpr); ok {
+				if k, ok := kv.Key.(*ast.Ident); ok && k.Name == "Amount" {
+					if v, ok := f.ObjOf(kv.Value).(*types.Var); ok && !v.IsField() {
+						amountVars[v] = true
+					}
+				}
+			}
+		})
 		for _, n := range g.Nodes {
 			if n.AST == nil {
 				continue
 			}
 			for _, w := range f.WritesIn(n.AST, false) {
 				if sel, ok := ast.Unparen(w.LHS).(*ast.SelectorExpr); ok && sel.Sel.Name == "Amount" {
+					amountStores = append(amountStores, n)
+				} else if w.RHS != nil && amountVars[f.ObjOf(w.LHS)] {
 					amountStores = append(amountStores, n)
 				}
 			}
@@ -814,4 +835,20 @@ func c15r7(c *Ctx) {
 	if n == 0 {
 		ir.Fail("no attachment list found (reference contractor's pool attachments)")
 	}
+}
+
+// literalAmountIs: e is a composite literal whose Amount field is filled with the variable v.
+func literalAmountIs(f *ir.Func, e ast.Expr, v types.Object) bool {
+	cl, ok := ast.Unparen(e).(*ast.CompositeLit)
+	if !ok {
+		return false
+	}
+	for _, el := range cl.Elts {
+		if kv, ok := el.(*ast.KeyValueExpr); ok {
+			if k, ok := kv.Key.(*ast.Ident); ok && k.Name == "Amount" && f.ObjOf(kv.Value) == v {
+				return true
+			}
+		}
+	}
+	return false
 }
